@@ -1,6 +1,6 @@
 (* C10 - Events reach exactly the active subscribers, exactly once, in dispatch order. *)
 From Coq Require Import List Bool Arith.
-From Asphalt Require Import Ev.SigModel Ev.SigProofs.
+From Asphalt Require Import Ev.SigModel Ev.SigProofs Gen.Gen_signal.
 Import ListNotations.
 
 (* For every history and every subscriber, in every reachable state: the events the stream has
@@ -56,3 +56,15 @@ Print Assumptions C10_wait_first.
 Theorem C10_wait_never_drops : forall e st, s_cap st = None -> snd (deliver1 e st) = false.
 Proof. exact unbounded_never_drops. Qed.
 Print Assumptions C10_wait_never_drops.
+
+(* Signal._subscribe / dispatch as read from the source on this run: subscriptions appended and removed in a
+   finally clause; the class check (isinstance) precedes the stamping of source, topic and time; one
+   send_nowait per subscriber over a copy of the list in subscription order; a closed receiver is skipped, a
+   full queue drops the event for that subscriber with a SignalQueueFull warning *)
+Theorem C10_dispatch_in_source :
+  sig_subscription_appended = true /\ sig_unsubscribed_in_finally = true /\
+  sig_class_check_by_isinstance = true /\ sig_check_before_stamping = true /\
+  sig_stamps_source_topic_time = true /\ sig_iterates_over_copy = true /\
+  sig_closed_receiver_skipped = true /\ sig_full_queue_warns_and_drops = true.
+Proof. exact signal_dispatch_source_shape. Qed.
+Print Assumptions C10_dispatch_in_source.
